@@ -36,8 +36,12 @@ class Operations(object):
 
     def format_key(self, target):
         # We cannot use target._sa_instance_state.identity here since object's
-        # identity is not yet updated at this phase
-        return (target.__class__, identity(target))
+        # identity is not yet updated at this phase. The classes of an
+        # inheritance hierarchy share one key space (that of the base table):
+        # an entity deleted and added again as another class of the hierarchy
+        # within one transaction is still one entity.
+        base_class = sa.inspect(target.__class__).base_mapper.class_
+        return (base_class, identity(target))
 
     def __contains__(self, target):
         return self.format_key(target) in self.objects
@@ -67,7 +71,9 @@ class Operations(object):
 
         :param session: SQLAlchemy session object
         """
-        return set(k[0] for k in self.objects)
+        return set(
+            operation.target.__class__ for operation in self.objects.values()
+        )
 
     def items(self):
         return self.objects.items()
